@@ -1166,6 +1166,10 @@ pub fn gen_c16(c: &mut Ctx) {
             p!(c, "ecube display {}", se(*x));
         }
     }
+    // the canonical zero cube (it prints as 0) and the constant exclusive cubes
+    p!(c, "cube display {}", sc((u32::MAX, u32::MAX)));
+    p!(c, "ecube display {}", se((0, false)));
+    p!(c, "ecube display {}", se((0, true)));
     // 32-variable cubes (indices up to 31)
     for _ in 0..(if c.thorough { 500 } else { 60 }) {
         let a = rand_cube_sparse(&mut c.rng, 32);
